@@ -191,6 +191,7 @@ def analyse(ctx, replace=None, only=None):
         R.fn(f)
 
     gate(R, P, lg)
+    set_level_forwards(R, P)
     vtables_complete(R, P)
     send_contract(R, P)
     subject_bounds(R, P)
@@ -201,6 +202,49 @@ def analyse(ctx, replace=None, only=None):
 
 
 # ------------------------------------------------------------------ GATE
+def set_level_forwards(R, P):
+    """GATE/set-level: aws_logger_set_log_level hands every level of the enumeration (AWS_LL_NONE .. AWS_LL_TRACE) to the
+    logger's own set_log_level.  NUM, every return state in which the logger has that entry and it was not called: the level
+    is outside [0, AWS_LL_COUNT) - no valid level is refused by the wrapper."""
+    f = P.fn("aws_logger_set_log_level")
+    cnt = P.enums.get("AWS_LL_COUNT")
+    if not R.require(f is not None and cnt is not None and len(f.params) == 2, "aws_logger_set_log_level / AWS_LL_COUNT not found"):
+        return
+    from sa.num import Num, Poly, Limit, entails
+    from sa.awslib import AwsHooks
+
+    class H(AwsHooks):
+        def call(self, num, st, e, args):
+            if e.get("callee") is None and (RU.indirect_via(num.fn, e) or ("", ""))[1] == "set_log_level":
+                st.notes["forwarded"] = True
+                st.notes["fwd_level"] = args[1] if len(args) > 1 else None
+                return Poly.atom(num.fresh(st, "rc", None, (-1, 0)))
+            return AwsHooks.call(self, num, st, e, args)
+    num = Num(f, P, H(), max_paths=4000)
+    try:
+        sts = num.states_at({-1}).get(-1, [])
+    except Limit as ex:
+        R.broken(str(ex))
+        return
+    ok, det, n = True, "", 0
+    lvl = "v:" + f.params[1]["n"]
+    for st in sts:
+        n += 1
+        if st.notes.get("forwarded"):
+            lv, fl = st.env.get(lvl), st.notes.get("fwd_level")
+            if lv is not None and fl is not None and not (entails(st, lv - fl) and entails(st, fl - lv)):
+                ok, det = False, "the level forwarded (%r) is not the level requested" % (fl,)
+            continue
+        fp = [v for k, v in st.env.items() if k.endswith("->set_log_level") or k.endswith("->vtable") or k == "v:" + f.params[0]["n"]]
+        if any(entails(st, v) and entails(st, -v) for v in fp):
+            continue  # no logger / no vtable / no such entry: INVALID_ARGUMENT or UNIMPLEMENTED whatever the level
+        lv = st.env.get(lvl)
+        if lv is None or not (entails(st, Poly.const(cnt) - lv) or entails(st, lv + 1)):
+            ok, det = False, "a level below AWS_LL_COUNT can be refused (trail %s)" % (st.trail[-4:],)
+    R.check(ok and n >= 2, "GATE", "set-level:every-valid-level-is-forwarded", "%s()" % f.name, "only levels outside the enumeration are refused before the logger's own set_log_level (%d states)" % n,
+            "aws_logger_set_log_level does not forward every valid level: %s - a change to that level is refused and the previous level keeps gating the calls" % det)
+
+
 def gate(R, P, lg):
     f = lg["aws_logger_get_conditional"]
     dom = dominators(f)
